@@ -223,8 +223,13 @@ fn agrees(got: &Option<String>, want: &Option<BTreeSet<String>>) -> bool {
     }
 }
 
+/// Is this a document / sub-document request?  The declared type decides, except that a ws:// or
+/// wss:// URL is a websocket request whatever type is declared (C12: websocket schemes force the
+/// websocket type), so no policy is due for it.
 fn is_doc(c: &Case) -> bool {
-    matches!(c.ty.as_str(), "document" | "main_frame" | "subdocument" | "sub_frame")
+    let u = c.url.trim_start().to_ascii_lowercase();
+    let websocket = u.starts_with("ws:") || u.starts_with("wss:");
+    !websocket && matches!(c.ty.as_str(), "document" | "main_frame" | "subdocument" | "sub_frame")
 }
 
 fn main() {
